@@ -773,6 +773,29 @@ def directed_worlds():
                    {"name": "G1", "jobs": [{"name": "Urgent", "profile": 1}], "policy": {"type": "fixed", "period": 1, "n": 1, "start": 2}, "dv": [100, 100]}],
         "pools": one_gpu, "sched": {"kind": "edf", "runtime": 0, "enforce": True, "preemptive": True}, "flags": {"timeout": 200}, "seed": 1,
     })
+    # --scheduler_run_at_worker_free with tasks that straddle the loop timeout: the run ends AT the timeout
+    for nm, pol, awf, freq in (("worker_free_straddles_timeout_edf", "edf", True, 5), ("worker_free_straddles_timeout_fifo", "fifo", True, 5),
+                               ("straddles_timeout_edf", "edf", False, -1), ("straddles_timeout_lsf_frequency", "lsf", False, 4)):
+        out.append({
+            "name": nm, "profiles": [P(15), P(4)],
+            "graphs": [{"name": "G0", "jobs": [{"name": "A", "profile": 1, "children": ["B"]}, {"name": "B", "profile": 0}],
+                        "policy": {"type": "fixed", "period": 6, "n": 3, "start": 0}, "dv": [0, 0]}],
+            "pools": one_gpu, "sched": {"kind": pol, "runtime": 0}, "flags": {"timeout": 30, "at_worker_free": awf, "frequency": freq}, "seed": 2,
+        })
+    # one sink of a fork is cancelled by the policy while the other branch goes on: the tasks of the surviving branch are still
+    # released when their parents complete (A -> {B -> D, C}; C cancelled at t=0)
+    out.append({
+        "name": "sink_cancelled_other_branch_continues", "profiles": [P(3), P(2)],
+        "graphs": [{"name": "G0", "jobs": [{"name": "A", "profile": 0, "children": ["B", "C"]}, {"name": "B", "profile": 1, "children": ["D"]},
+                                           {"name": "C", "profile": 1}, {"name": "D", "profile": 0}],
+                    "policy": {"type": "fixed", "period": 1, "n": 1, "start": 0}, "dv": [0, 0]}],
+        "pools": [[[I("gpu", "g1", 2)]]],
+        "sched": {"kind": "scripted", "runtime": 0, "lookahead": 50, "rtg": True, "script": [
+            {"at": 0, "decs": [{"task": "A@G0@0", "do": "place", "time": 0}, {"task": "C@G0@0", "do": "cancel"}]},
+            {"at": 3, "decs": [{"task": "B@G0@0", "do": "place", "time": 3}]},
+            {"at": 5, "decs": [{"task": "D@G0@0", "do": "place", "time": 5}]}]},
+        "flags": {"timeout": 100, "frequency": 1}, "seed": 1,
+    })
     # runtimes given in milliseconds (2 ms, 1 ms) next to a microsecond task: the long tasks are stepped in pieces by the
     # events of the short ones (releases every 300us) and must still hold their resources for exactly their runtime
     for nm, sched in (("ms_runtimes_edf", {"kind": "edf", "runtime": 0}), ("ms_runtimes_lsf_variance", {"kind": "lsf", "runtime": 0})):
